@@ -8,7 +8,7 @@ notification; late subscribers after termination get only the terminal).
 """
 from __future__ import annotations
 
-from .. import core, subjref
+from .. import core, subjref, subj_ilv
 from ..subjref import P, US
 
 PROPERTY = "C21"
@@ -84,7 +84,10 @@ def run(ctx: core.Ctx):
         "a subscriber arriving from inside the delivery of on_next(v) gets v as the current value (the call has been made) and not as a broadcast",
     ]
     subjref.run_configs(ctx, cfgs, depths)
+    subj_ilv.run_part(ctx, "BehaviorSubject")  # E3: subscribe() racing the emitting thread
 
 
 def replay(case):
+    if isinstance(case, dict) and str(case.get("harness", "")).startswith("subject-race|"):
+        return subj_ilv.replay("BehaviorSubject", case)
     return subjref.replay_case(case)
